@@ -21,6 +21,11 @@ fn main() {
         a.extend(args[2..].iter().cloned());
         realsh::real_shell(a);
     }
+    if args[1] == "parse-probe" {
+        // parses one tower of nested constructs; used as a subprocess by C06 (a stack overflow
+        // aborts the process, an exponential parse never ends)
+        std::process::exit(props::c06::parse_probe(&args[2], args[3].parse().unwrap_or(1)));
+    }
     if args[1] == "sh" {
         std::process::exit(dev::main(&args[2..]));
     }
